@@ -525,7 +525,7 @@ def gen_values(rng, n):
 
 def correspondence(ctx):
     rng = ctx.rng
-    n = 9000 if ctx.quick else 220000
+    n = 25000 if ctx.quick else 500000
     cases = [(t, s, near) for t, s, near in gen_strings(ctx, rng, n) if encodable(s)]
     replies = ctx.driver.ask_many([req('str', common.hexs(s)) for _, s, _ in cases])
     out = []
@@ -834,7 +834,7 @@ def search(ctx, seeds, full=False):
             try_str(sd['arg'])
         elif sd.get('kind') == 'int':
             try_val(sd['arg'])
-    n = (40000 if full else 4000) if ctx.quick else (400000 if full else 60000)
+    n = (60000 if full else 10000) if ctx.quick else (600000 if full else 150000)
     for tag, s, _ in gen_strings(ctx, rng, n):
         ctx.count('search/' + tag.split('/')[0])
         try_str(s)
